@@ -1128,3 +1128,13 @@ package profile
 //@   ensures known: p.DropFrames == allocRxStr || p.DropFrames == lockRxStr || p.DropFrames == cpuProfilerRxStr
 //@   ensures keep_only_heap: p.KeepFrames == allocSkipRxStr || p.KeepFrames == ""
 //@   ensures nonheap_keeps_nothing: !callres("isProfileType#1", 0) ==> p.KeepFrames == ""
+
+// ---- C14: massageMappings — when two adjacent memory-map entries are merged, the surviving entry ends where the second
+// one ends and takes over the second one's file name and build id when it has them (keeping its own otherwise); entries
+// that are not merged are appended unchanged ----
+//@ func Profile.massageMappings nosafety
+//@   loop 1
+//@     step merged_range: len(mappings) == len(iter(mappings)) ==> lm.Limit == atiter(1, m.Limit)
+//@     step merged_file: len(mappings) == len(iter(mappings)) && lm != m ==> lm.File == ite(atiter(1, m.File) != "", atiter(1, m.File), atiter(1, lm.File))
+//@     step merged_buildid: len(mappings) == len(iter(mappings)) && lm != m ==> lm.BuildID == ite(atiter(1, m.BuildID) != "", atiter(1, m.BuildID), atiter(1, lm.BuildID))
+//@     step appended: len(mappings) != len(iter(mappings)) ==> len(mappings) == len(iter(mappings)) + 1 && mappings[len(mappings) - 1] == m
